@@ -4,6 +4,7 @@ import Tsg.Driver.GraphIO
 import Tsg.Driver.Exec
 import Tsg.Driver.PErr
 import Tsg.Driver.CliIO
+import Tsg.Driver.AstOut
 
 open Driver
 
@@ -20,6 +21,7 @@ def handle (st : DState) (req : Sexp) : DState × Sexp :=
     | none => (st, .list [.atom "bad-request"])
   | .list (.atom "fn" :: rest) => (st, handleFn st.tree rest)
   | .list (.atom "exec" :: rest) => (st, handleExec st.tree rest)
+  | .list (.atom "parse" :: rest) => (st, handleParse rest)
   | .list (.atom "cli" :: rest) => (st, handleCli rest)
   | .list [.atom "perrors"] => (st, handlePErrors st.tree)
   | .list (.atom "perror-display" :: rest) => (st, handlePErrorDisplay st.tree rest)
